@@ -106,3 +106,22 @@ def gen_programs(rep, wd, name, palette, nlines, maxstmts, maxdepth=2, maxpergro
 
 def render_program(palette, lines, first=10, step=10):
     return ["%d %s" % (first + step * i, ":".join(palette[k]["text"] for k in ln)) for i, ln in enumerate(lines)]
+
+
+def gen_seqs(rep, wd, name, n, start, final, follows, maxlen, maxcount=9):
+    """All sequences of spec/GenSeq.tla (symbols 0..n-1 on the Python side)."""
+    import json
+    spec = os.path.join(wd, "seqspec_%s.json" % name)
+    with open(spec, "w") as f:
+        json.dump({"n": n, "start": [x + 1 for x in start], "final": [x + 1 for x in final],
+                   "follows": [[a + 1, b + 1] for a, b in follows], "maxlen": maxlen, "maxcount": maxcount}, f)
+    cfg = os.path.join(wd, "GenSeq_%s.cfg" % name)
+    with open(cfg, "w") as f:
+        f.write("SPECIFICATION Spec\nINVARIANT WellFormed\nCHECK_DEADLOCK FALSE\n")
+    r = rep.tlc(common.run_tlc("GenSeq", cfg=cfg, wd=wd, env={"SEQSPEC": spec}))
+    out = []
+    for st in r.states:
+        if st.get("done") == "TRUE":
+            out.append([x - 1 for x in common.tlaval(st["seq"])])
+    out.sort(key=lambda s: (len(s), s))
+    return out
